@@ -35,6 +35,8 @@ pub fn proj_json(ont: &Ontology) -> Result<Value, String> {
                 "romim": sorted(t.omim_diseases().map(|x| x.id().as_u32())),
                 "rorpha": sorted(t.orpha_diseases().map(|x| x.id().as_u32())),
                 "rallp": sorted(t.all_parents().map(|x| x.id().as_u32())),
+                "rparents": sorted(t.parents().map(|x| x.id().as_u32())),
+                "rchildren": sorted(t.children().map(|x| x.id().as_u32())),
             }));
         }
         let name_no = |s: &str| -> u64 { s.trim_start_matches('n').parse().unwrap_or(0) };
@@ -44,6 +46,10 @@ pub fn proj_json(ont: &Ontology) -> Result<Value, String> {
         g.sort_by_key(|x| x.0);
         o.sort_by_key(|x| x.0);
         r.sort_by_key(|x| x.0);
+        // the records' direct terms must resolve (a dangling id panics here and the run ends with ProjectionPanicked)
+        let _resolved: usize = ont.genes().map(|x| x.to_hpo_set(ont).iter().count()).sum::<usize>()
+            + ont.omim_diseases().map(|x| x.to_hpo_set(ont).iter().count()).sum::<usize>()
+            + ont.orpha_diseases().map(|x| x.to_hpo_set(ont).iter().count()).sum::<usize>();
         // information content must be consistent with the ontology's OWN link sets and record counts
         // (n = linked ids of the kind, N = records of the kind), whatever path built the ontology
         let mut ic_bad: Vec<String> = vec![];
@@ -470,6 +476,95 @@ pub fn one_run(rng: &mut Rng, large: bool, layout: u64) -> Vec<Value> {
     ev
 }
 
+/// C15: a run whose call history interleaves calls that must be rejected (absent term ids) with
+/// successful ones; every reply is logged, the built ontology is projected through the resolving
+/// read API (a dangling id panics there).
+pub fn reject_run(rng: &mut Rng) -> Vec<Value> {
+    let mut ev: Vec<Value> = vec![];
+    let n = rng.range(3, 10) as usize;
+    let mut pool: BTreeSet<u32> = BTreeSet::new();
+    while pool.len() < n + 4 {
+        pool.insert(if rng.chance(1, 2) { rng.range(0, 40) as u32 } else { rng.range(0, MAX_ID as u64) as u32 });
+    }
+    let mut all: Vec<u32> = pool.into_iter().collect();
+    rng.shuffle(&mut all);
+    let absent: Vec<u32> = all.split_off(n);
+    let order = all;
+    let mut topo = order.clone();
+    rng.shuffle(&mut topo);
+    let mut b = Builder::new();
+    for id in &order {
+        b.new_term(&format!("T{id}"), *id);
+        ev.push(json!({"e": "NewTerm", "id": id}));
+    }
+    let mut b = b.terms_complete();
+    ev.push(json!({"e": "TermsComplete"}));
+    for i in 1..topo.len() {
+        for _ in 0..rng.range(0, 2) {
+            let (mut p, mut c) = (topo[rng.below(i as u64) as usize], topo[i]);
+            match rng.below(8) {
+                0 => c = *rng.pick(&absent),
+                1 => p = *rng.pick(&absent),
+                2 => {
+                    p = *rng.pick(&absent);
+                    c = *rng.pick(&absent);
+                }
+                _ => {}
+            }
+            if p == c {
+                continue;
+            }
+            let r = b.add_parent(p, c);
+            ev.push(json!({"e": "AddParent", "p": p, "c": c, "ok": r.is_ok()}));
+        }
+    }
+    let mut b = b.connect_all_terms();
+    ev.push(json!({"e": "ConnectAll"}));
+    let nfacts = rng.range(2, 16);
+    let nrec = rng.range(1, 4) as u32;
+    for i in 0..nfacts {
+        let kind = KINDS[rng.below(3) as usize];
+        let x = rng.range(1, nrec as u64) as u32;
+        let name = format!("n{}", i + 1);
+        if rng.chance(1, 8) {
+            match kind {
+                Kind::Gene => b.add_gene(&name, GeneId::from(x)),
+                Kind::Omim => {
+                    b.add_omim_disease(&name, OmimDiseaseId::from(x));
+                }
+                Kind::Orpha => {
+                    b.add_orpha_disease(&name, OrphaDiseaseId::from(x));
+                }
+            }
+            ev.push(json!({"e": "AddRecord", "k": kind.name(), "x": x}));
+        } else {
+            let t = if rng.chance(1, 3) { *rng.pick(&absent) } else { *rng.pick(&order) };
+            let r = match kind {
+                Kind::Gene => b.annotate_gene(GeneId::from(x), &name, HpoTermId::from(t)),
+                Kind::Omim => b.annotate_omim_disease(OmimDiseaseId::from(x), &name, HpoTermId::from(t)),
+                Kind::Orpha => b.annotate_orpha_disease(OrphaDiseaseId::from(x), &name, HpoTermId::from(t)),
+            };
+            ev.push(json!({"e": "Annotate", "k": kind.name(), "x": x, "t": t, "ok": r.is_ok()}));
+        }
+    }
+    let ont = match catch(|| b.calculate_information_content().map(|x| x.build_minimal())) {
+        Ok(Ok(o)) => o,
+        Ok(Err(e)) => {
+            ev.push(json!({"e": "BuildFailed", "why": e.to_string()}));
+            return ev;
+        }
+        Err(p) => {
+            ev.push(json!({"e": "BuildFailed", "why": p}));
+            return ev;
+        }
+    };
+    match proj_json(&ont) {
+        Ok(p) => ev.push(json!({"e": "Built", "proj": p})),
+        Err(p) => ev.push(json!({"e": "ProjectionPanicked", "why": p})),
+    }
+    ev
+}
+
 pub fn run(args: &Args) {
     silence_panics();
     let seed = args.num("seed", 1);
@@ -488,6 +583,10 @@ pub fn run(args: &Args) {
         // the id layouts of the large runs cycle deterministically (first: root in the middle)
         let le = args.num("large-every", 0);
         let fe = args.num("fan-every", 0);
+        if args.num("reject", 0) > 0 {
+            all.push((r, reject_run(&mut rng)));
+            continue;
+        }
         if fe > 0 && r % fe == fe - 1 {
             all.push((r, fan_run(&mut rng, r / fe)));
             continue;
@@ -512,6 +611,13 @@ pub fn run(args: &Args) {
                     }
                     "AddRecord" | "Annotate" => {
                         recs[Kind::parse(e["k"].as_str().unwrap()) as usize].insert(as_u32(&e["x"]));
+                        if let Some(t) = e.get("t") {
+                            ids.insert(as_u32(t));
+                        }
+                    }
+                    "AddParent" => {
+                        ids.insert(as_u32(&e["p"]));
+                        ids.insert(as_u32(&e["c"]));
                     }
                     _ => {}
                 }
